@@ -435,6 +435,15 @@ pub fn check_case(case: &EnvCase) -> Result<CaseStats, (Violation, CaseStats)> {
         obs.push(exec_inline(case));
     }
     let first = obs[0].clone();
+    // a generated text that does not compile is a mistake of the generator (a rendering the
+    // grammar does not accept), never evidence about the properties: nothing is compared
+    if let Outcome::Fail(Class::Syntax, msg) = &first.outcome {
+        if msg.starts_with("compile ") {
+            stats.silent = Some("a generated program did not compile");
+            stats.outcome_kind = "failure";
+            return Ok(stats);
+        }
+    }
     stats.events = first.log.len() as u64;
     stats.log_digest = crate::prng::fnv(fmt_log(&first.log).as_bytes());
     stats.outcome_kind = match &first.outcome {
